@@ -52,7 +52,7 @@ H("p1_write", src="p_str.c", tus=["polyseed", "dependency"], flags=CAD + ["--unw
 H("p3_lazy", src="p_str.c", tus=["dependency"], defs=["DEP_STR_MAX=1"], flags=CAD, cap=300, rss=2.0)
 H("p4_split", src="p_str.c", tus=["polyseed", "dependency"], flags=CAD, cap=600, rss=3.0)
 
-for n in ("t4_table", "t4_distinct", "t4_selffind", "t4_meta", "t4_abbrevfind"):
+for n in ("t4_table", "t4_distinct", "t4_selffind", "t4_meta", "t4_abbrevfind", "t4_selfcheck"):
     # concrete table walks without any assumption: no vacuity twin needed
     H(n, src="t_table.c", tus=["lang"], extra=["stubs/bsearch.c"], langdata=True, nowitness=True,
       flags=CAD + ["--unwind", "2050", "--object-bits", "14"], cap=600, rss=4.0)
@@ -215,6 +215,8 @@ def g_t4(langs=LANGS, cfgs=("s",), selffind=False):
                 out.append(I("t4_distinct", cfg=c, defs=d + ["UNSORTED=1"], tus=["lang", "lang_" + l], cap=900, rss=2.0))
             if selffind:
                 out.append(I("t4_selffind", cfg=c, defs=d, tus=["lang", "lang_" + l], cap=1800, rss=7.0))
+                out.append(I("t4_selfcheck", cfg=c + "d", defs=d + ["SELFCHECK=1"], tus=["lang", "lang_" + l, "dependency"],
+                             flags=["--max-field-sensitivity-array-size", "600"], cap=1800, rss=6.0))
                 if RULE_OF[l] in (1, 3):
                     out.append(I("t4_abbrevfind", cfg=c, defs=d + ["ABBREV=1"], tus=["lang", "lang_" + l], cap=2400, rss=12.0))
     return out
